@@ -471,9 +471,13 @@ def oracle_virtual(cfg, rng, n_rays=24):
 
 
 def image_cone(optic, w=WL):
-    """n * sin(U') of the marginal ray in the last medium (direction recorded at the surface before the image)"""
-    optic.trace_generic(0.0, 0.0, 0.0, 1.0, w)
+    """largest n * sin(U') over the rim of the (possibly vignetted, hence elliptical) pupil, in the last medium
+    (direction recorded at the surface before the image)"""
+    Px = np.array([0.0, 1.0, 0.0, -1.0, 0.7071067811865476])
+    Py = np.array([1.0, 0.0, -1.0, 0.0, 0.7071067811865476])
+    optic.trace_generic(0.0, 0.0, Px, Py, w)
     sg = optic.surface_group
-    s = float(np.hypot(sg.L[-2, 0], sg.M[-2, 0]))
+    s = np.hypot(sg.L[-2, :], sg.M[-2, :])
+    s = float(np.nanmax(s)) if np.any(np.isfinite(s)) else float('nan')
     n = float(np.ravel(sg.surfaces[-1].material_pre.n(w))[0])
     return n * s
